@@ -20,33 +20,40 @@ PROPS_MODULES = ["XonshVerif.Props.C09"]
 TECHNIQUE = (
     "Lean 4 proof (resource ledger: every open / close / start / wait / handler swap performed by cmds_to_specs, "
     "CommandPipeline.__init__ / end and the proc classes, as an event program over named resources; ownership invariant by "
-    "induction on the stage list and the redirect lists; LIFO handler discipline) + differential correspondence: generated "
-    "pipelines x failure modes run through the real Execer in a forked worker, /proc/self/fd, children, threads, handlers, "
-    "cwd, std streams, environment and a self-sent SIGINT compared before/after and with the ledger's prediction"
+    "induction on the stage list and the redirect lists; well-nested handler swaps) + differential correspondence: generated "
+    "pipelines x failure modes run through the real Execer in a forked worker (plain, and as an interactive shell on a pty), "
+    "/proc/self/fd, children, threads, handlers, cwd, std streams, environment, terminal owner / attributes and a self-sent SIGINT "
+    "compared before/after and with the ledger's prediction"
 )
 LEVEL_TEXT = (
     "proof (partial): the ledger model (lean/XonshVerif/Model/FdLedger.lean) is the list of acquire / release events the code "
     "performs for a command: redirect files and the stream setters, the `|` PipeChannels, capture channels and their wrappers, "
     "started children and helper threads, swapped signal handlers; the except-branch of cmds_to_specs, the start-failure branch "
-    "of CommandPipeline.__init__, _close_prev_procs / _close_proc, the waits and the handler restores. Proved for ALL pipelines "
-    "(any number of stages of any kind, any redirect lists incl. unopenable / conflicting ones, any capture form, any failing "
-    "stage and phase): C09_balanced (with the two proposed repairs: the ledger after the command = the ledger before, on every "
-    "exit path that ends the pipeline), C09_balanced_partial (the code as it is, with the exact guard: no stage other than the "
-    "first fails to start) and its converse C09_leak_exact, C09_cex_* witnesses for the three leaks of the unchanged code (a later "
-    "stage fails to start; a background pipeline; a callable alias before the last stage keeps SIGINT), C09_close_idem (closing "
-    "is idempotent; extra closes never change the outcome), C09_handlers_restored (+ _partial with the exact guard), "
-    "C09_held_bounded (while the raised exception is still referenced only the failing stage's own redirect files / the one "
-    "unattached pipe stay open), C09_repeat (any number of repetitions of a balanced command leaves the ledger unchanged) and "
-    "C09_repeat_grows (each repetition of a leaking command adds its leak again). Tie: generated pipelines x failure modes on "
-    "the real code; every built SubprocSpec is audited; the real sequence of os.pipe / open calls is matched against the "
-    "ledger's open events; repetition stream for the cumulative clause."
+    "of CommandPipeline.__init__, _close_prev_procs / _close_proc, the waits and the handler restores; the repairs proposed with "
+    "the findings are switches of the same model. Proved for ALL pipelines (any number of stages of any kind, any redirect lists "
+    "incl. unopenable / conflicting / pipe-colliding ones, any capture form, whichever stage fails in whichever phase) and all "
+    "prior session states: C09_ledger / C09_balanced (with the `teardown` repair the ledger after the command = the ledger before "
+    "on every exit path that ends the pipeline; when the body of _end is left early at most the un-waited child of a plain-Popen "
+    "last stage remains), C09_balanced_partial + C09_leak_exact (the code as it is balances IF AND ONLY IF no stage other than the "
+    "first fails to start), C09_cex_late_start_failure / _background / _abort / _held (the leaks of the unchanged code), "
+    "C09_close_idem, C09_close_comm, C09_extra_closes (closing is idempotent; additional closes anywhere never change a balanced "
+    "outcome: the timing-dependent closes of the real code may be left out), C09_held_bounded (while the raised exception is "
+    "referenced only one stage's redirect files or the one unattached pipe stay open), C09_handlers_restored (with the `lifo` "
+    "repair saved = restored on every path incl. start failures and an _end left early), C09_handlers_restored_partial (the code as "
+    "it is, guard: no started stage but the last swaps a handler), C09_cex_sigint / _abort_handlers / _sigint_chain, C09_repeat, "
+    "C09_repeat_handlers (any number of repetitions of a balancing command leaves ledger and signal state unchanged), "
+    "C09_repeat_grows (every repetition of a leaking command adds its residue again). Tie: the generated pipelines on the real code, "
+    "every acquisition matched with the ledger's open events, what is left compared with the ledger's residue; repetition stream for "
+    "the cumulative clause; PipeChannel close sequences from one and two threads against stepRes."
 )
 LEVEL_NOTE = (
-    "Trusted: Lean kernel + standard axioms; the harness (forked worker, /proc sampling, monkeypatched os.pipe / os.openpty / "
-    "os.close / open to record the real events); the OS. Observed by the tie only, not proved: that a waited-for child has "
-    "exited, that a joined thread ends, terminal ownership (checked on a pty in the interactive stream), environment and cwd "
-    "equality, the effect of SIGINT. Helper threads that end by themselves within 2 s of the command (PrevProcCloser polls "
-    "every 0.1 s) are tolerated. Ctrl-C DURING a command, job control (fg/bg/Ctrl-Z) and $XONSH_STORE_STDIN are outside the generated space."
+    "Trusted: Lean kernel + standard axioms; the harness (forked worker per case, /proc sampling, monkeypatched os.pipe / os.openpty / "
+    "os.close / open / Popen.wait to record the real events, pty set-up); the OS. Observed by the tie only, not proved: that a "
+    "waited-for child has exited and a joined thread has ended (the ledger counts a stage as given back once wait / join was "
+    "CALLED), terminal ownership and attributes, environment and cwd equality, the effect of SIGINT. Helper threads that end by "
+    "themselves within 2 s of the command (PrevProcCloser polls every 0.1 s) are tolerated. What the garbage collector gives back "
+    "once nothing references an old pipeline is outside the ledger (the repetition stream observes it). Ctrl-C DURING a command, "
+    "job control (fg / bg / Ctrl-Z), $XONSH_STORE_STDIN and $THREAD_SUBPROCS off are outside the generated space."
 )
 
 K_LATE = "late-start-failure-leaves-previous-stage"
@@ -56,6 +63,7 @@ K_HELD = "failed-build-spec-closed-only-by-refcount"
 K_HANG = "callable-alias-pipeline-intermittent-hang"
 K_WAIT = "blocked-producer-is-waited-for-before-its-consumer-is-torn-down"
 K_ABORT = "end-left-early-keeps-the-last-handlers"
+K_VSUSP = "captured-command-leaves-the-suspend-character-disabled"
 K_STD = "overlapping-alias-threads-leave-sys-stdout-on-the-dispatcher"
 
 SIGS = ["SIGINT", "SIGTSTP", "SIGQUIT", "SIGWINCH"]
@@ -310,7 +318,7 @@ def _children():
 
 
 def _threads():
-    return sorted(type(t).__name__ for t in threading.enumerate() if t is not threading.main_thread())
+    return sorted(type(t).__name__ for t in threading.enumerate() if t is not threading.main_thread() and t.name != "xv-drain")
 
 
 def _hdesc(h, base):
@@ -491,18 +499,98 @@ def run_case(item):
     return json.loads(b"".join(chunks))
 
 
+def _enter_tty():
+    """give the case child a controlling terminal of its own (a pty): fds 0-2 are the slave, the process is the session leader
+    and the terminal's foreground process group - what an interactive shell has"""
+    import fcntl
+    import termios
+
+    m, sl = os.openpty()
+    os.setsid()
+    fcntl.ioctl(sl, termios.TIOCSCTTY, 0)
+    for fd in (0, 1, 2):
+        os.dup2(sl, fd)
+    if sl > 2:
+        os.close(sl)
+    # what xonsh.main._setup_controlling_terminal installs for an interactive shell: a Python no-op handler, so that touching the
+    # terminal while it belongs to a job fails with EINTR instead of stopping the shell
+    signal.signal(signal.SIGTTOU, lambda n, f: None)
+    signal.signal(signal.SIGTTIN, lambda n, f: None)
+
+    def drain():
+        while True:
+            try:
+                if not os.read(m, 65536):
+                    return
+            except OSError:
+                return
+
+    threading.Thread(target=drain, name="xv-drain", daemon=True).start()
+    return m
+
+
+def _drain(master):
+    return
+
+
+def _tty_state():
+    import termios
+
+    try:
+        return {"fg_is_shell": os.tcgetpgrp(2) == os.getpgrp(), "attrs": termios.tcgetattr(0)}
+    except (OSError, termios.error) as e:
+        return {"error": str(e)}
+
+
 def _run_case_here(item):
     """item = {src, end_object, env, reps}"""
     S = session()
     XSH = S["XSH"]
+    import faulthandler
+
+    # if the command wedges, leave the stacks of all threads where the parent can read them
+    hf = open(item.get("hang_file") or os.devnull, "w")
+    faulthandler.dump_traceback_later(max(5, item.get("timeout", 40) - 8), repeat=False, file=hf, exit=False)
+    real = [sys.stdin, sys.stdout, sys.stderr]
+
+    def on_thread_exc(args):
+        try:
+            hf.write(f"THREAD-EXC {args.exc_type.__name__}: {args.exc_value} in {type(args.thread).__name__}\n")
+            hf.flush()
+        except Exception:  # noqa: BLE001
+            pass
+
+    threading.excepthook = on_thread_exc
+
+    def on_alarm(*_):
+        try:
+            hf.write("WATCHDOG real std objects closed (stdin, stdout, stderr): " + repr([bool(o.closed) for o in real]) + " threads: " + repr(_threads()) + "\n")
+            hf.flush()
+        except Exception:  # noqa: BLE001
+            pass
+
+    signal.signal(signal.SIGALRM, on_alarm)
+    signal.alarm(max(4, item.get("timeout", 40) - 10))
+    master = None
+    if item.get("tty"):
+        master = _enter_tty()
+        # a case on its own terminal has left the worker's process group: it must end itself if it wedges
+        def on_alarm_tty(*_):
+            on_alarm()
+            signal.signal(signal.SIGALRM, signal.SIG_DFL)
+            signal.alarm(15)
+        signal.signal(signal.SIGALRM, on_alarm_tty)
     _S["base_fds"] = set(_fds())
     gc.collect()
     swap = dict(item.get("env") or {})
+    if master is not None:
+        swap["XONSH_INTERACTIVE"] = True
     reps = item.get("reps", 1)
     out = {"reps": []}
     with XSH.env.swap(**swap):
         gc.collect()
         A = _snapshot()
+        tty0 = _tty_state() if master is not None else None
         chain0 = _chain_depth()
         _Trace.events, _Trace.closes, _Trace.specs, _Trace.wait_timeouts, _Trace.waited, _Trace.on = [], [], [], [], [], True
         t0 = time.time()
@@ -511,6 +599,7 @@ def _run_case_here(item):
             if rep == 1:
                 _Trace.on = False  # only the first run is traced
             exc = _exec(item["src"])
+            _drain(master)
             lc = XSH.lastcmd
             if item.get("end_object") and lc is not None:
                 try:
@@ -540,6 +629,20 @@ def _run_case_here(item):
                     waited += 0.01
                 gc.collect()
                 B = _snapshot()
+                if master is not None:
+                    t1 = _tty_state()
+                    if t1 != tty0:
+                        a0, a1 = tty0.get("attrs") or [], t1.get("attrs") or []
+                        names = ["iflag", "oflag", "cflag", "lflag", "ispeed", "ospeed"]
+                        diff = {n: [x, y] for n, x, y in zip(names, a0[:6], a1[:6]) if x != y}
+                        if len(a0) > 6 and len(a1) > 6:
+                            cc = {str(i): [repr(x), repr(y)] for i, (x, y) in enumerate(zip(a0[6], a1[6])) if x != y}
+                            if cc:
+                                diff["cc"] = cc
+                        import termios
+
+                        out.setdefault("tty", {})[str(rep)] = {"fg_is_shell": t1.get("fg_is_shell"), "attr_diff": diff, "VSUSP": str(termios.VSUSP),
+                                                               "error": t1.get("error")}
                 rec = {"rep": rep, "delta": _delta(A, B), "chain": _chain_depth() - chain0, "thread_wait": round(waited, 2),
                        "nfds": len(B["fds"]), "nchildren": len(B["children"]), "nthreads": len(B["threads"]),
                        "active": len(__import__("subprocess")._active), "jobs": len(__import__("xonsh.procs.jobs", fromlist=["x"]).get_jobs())}
@@ -566,6 +669,10 @@ def _run_case_here(item):
                 exc = None
         out["sigint"] = _sigint_effect()
         out["chain_after_sigint"] = _chain_depth() - chain0
+    faulthandler.cancel_dump_traceback_later()
+    signal.alarm(0)
+    out["real_std_closed"] = [bool(o.closed) for o in real]
+    hf.close()
     _Trace.on = False
     _Trace.events, _Trace.specs = [], []
     return out
@@ -585,7 +692,8 @@ def render_stage(st):
         if not st["buildOk"]:
             cmd = "./notexec"
         elif not st["found"]:
-            cmd = "xv-no-such-command arg"
+            # two ways of failing to start: FileNotFoundError -> XonshError, or a ValueError out of Popen itself (NUL in the environment)
+            cmd = '$XV_NUL="a\\0b" ' + _sh(b) if st.get("fail_how") == "nul-env" else "xv-no-such-command arg"
         else:
             cmd = _sh(b)
     elif st["kind"] == "thr":
@@ -594,6 +702,8 @@ def render_stage(st):
         cmd = f'u {b["rc"]}'
     for r in st["redirs"]:
         cmd += " " + (r["op"] + (" " + r["path"] if "path" in r else ""))
+    if st.get("dec") and not cmd.startswith("$"):
+        cmd = st["dec"] + " " + cmd
     return cmd
 
 
@@ -657,6 +767,7 @@ def gen_case(rng, mode=None, allow_bg=True):
             stages[-1]["beh"]["rc"] = 2
     elif mode == "not-found":
         st["kind"], st["found"] = "ext", False
+        st["fail_how"] = rng.choice(["notfound", "notfound", "nul-env"])
         if pos > 0 and rng.random() < 0.4:
             stages[pos - 1]["beh"]["write"] = rng.choice(["big", "endless"]) if stages[pos - 1]["kind"] == "ext" else "big"
     elif mode == "alias-raises":
@@ -726,7 +837,12 @@ def gen_case(rng, mode=None, allow_bg=True):
         for s in stages:  # keep background jobs short-lived
             if s["beh"]["write"] == "endless":
                 s["beh"]["write"] = "small"
-    case = {"mode": mode, "stages": stages, "capture": capture, "background": background, "capture_always": rng.random() < 0.15}
+    # the ways a failure is turned into an exception (each is its own exit path of end()): the decorators, the two flags
+    for s in stages:
+        if rng.random() < 0.2:
+            s["dec"] = rng.choice(["@error_raise", "@error_ignore"])
+    case = {"mode": mode, "stages": stages, "capture": capture, "background": background, "capture_always": rng.random() < 0.15,
+            "flags": [rng.random() < 0.75, rng.random() < 0.25]}
     if mode == "undecodable":
         case["strict"] = True
     case["src"] = render(case)
@@ -813,10 +929,12 @@ def file_paths_match(case, trace, model_opens, root_hint=None):
 def judge(ctx, stream, case, obs, variant):
     info = {"stream": stream, "source": case["src"], "mode": case["mode"], "capture": case["capture"], "background": case["background"],
             "capture_always": case.get("capture_always", False), "case": case}
-    if obs == common.HANG:
+    if is_hang(obs):
         ctx.count("hang")
-        key = K_HANG if hang_is_known(case) else None
-        ctx.spec_failure(info, {"hang": True}, "the command did not return (the session is wedged)", key)
+        mech = hang_mechanism(obs)
+        key = K_HANG if hang_is_known(case) and all(mech.values()) else None
+        ctx.extra.setdefault("hangs", []).append({"source": case["src"], "mechanism": mech, "classified": key, "dump_tail": obs.get("stacks", "")[-1800:]})
+        ctx.spec_failure(info, {"hang": True, "mechanism": mech, "stacks": obs.get("stacks", "")[-3000:]}, "the command did not return (the session is wedged)", key)
         return
     if isinstance(obs, dict) and "__exc__" in obs:
         raise common.InfraError(f"C09 worker failed on {case['src']!r}: {obs['__exc__']}")
@@ -900,6 +1018,14 @@ def judge(ctx, stream, case, obs, variant):
             fails.append((k, d[k], f"{k} changed"))
     if obs["sigint"] != "KeyboardInterrupt":
         fails.append(("sigint", obs["sigint"], "a SIGINT sent to the shell after the command does not raise KeyboardInterrupt"))
+    tty0 = (obs.get("tty") or {}).get("0")
+    if tty0:
+        if not tty0.get("fg_is_shell"):
+            fails.append(("tty-owner", tty0, "the terminal's foreground process group is not the shell's after the command"))
+        if tty0.get("attr_diff") or tty0.get("error"):
+            fails.append(("tty-attrs", tty0, "the terminal attributes differ from those before the command"))
+    if any(obs.get("real_std_closed") or []):
+        fails.append(("std-closed", obs["real_std_closed"], "the session's real sys.stdin / sys.stdout / sys.stderr object was closed by the command"))
     if r0["closed_twice"]:
         fails.append(("double-close", r0["closed_twice"], "a PipeChannel closed the same descriptor number twice (the number may belong to somebody else by then)"))
     if held and not final:
@@ -908,26 +1034,8 @@ def judge(ctx, stream, case, obs, variant):
         return m, faithful
     # ---- which of them are the known findings?  Only what the faithful ledger predicts, attributed to the mechanism that
     # produces it IN THE LEDGER (asked counterfactually: does the repaired ledger still show it?)
-    m_td = model(ctx, case, (True, variant[1], variant[2]), aborts=aborts)  # every started stage torn down on a start failure
     res_leak = [x for x in m["final"]]
-    leak_key = None
-    if res_leak:
-        if not ended:
-            leak_key = K_BG
-        elif m["start_failed"] and m["started"] >= 1 and not variant[0] and not m_td["final"]:
-            leak_key = K_LATE
-        elif aborts and all(x[1] == "child" and x[0] == m["started"] - 1 for x in res_leak):
-            leak_key = K_ABORT
-    h_key = None
-    if m["handlers"] != ["orig"] * 4:
-        hi = m["handlers"][0]
-        last_started = m["started"] - 1
-        if not ended:
-            h_key = K_BG
-        elif isinstance(hi, list) and hi[1] == last_started and aborts and not m["start_failed"]:
-            h_key = K_ABORT
-        elif isinstance(hi, list) and case["stages"][hi[1]]["kind"] == "thr" and (hi[1] < last_started or m["start_failed"]) and not variant[1]:
-            h_key = K_SIGINT
+    leak_key, h_key = mechanism_keys(ctx, case, m, variant, aborts)
     # a proc thread of a stage that is never torn down may be stuck for good (writing into a pipe nobody reads): while it lives,
     # sys.stdout stays redirected to the dispatcher and its SIGINT handler swallows the signal - consequences of the same leak
     stuck = "ProcProxyThread" in d.get("threads", []) and bool(leaked_stages)
@@ -950,6 +1058,22 @@ def judge(ctx, stream, case, obs, variant):
             elif what == "sigint":
                 # a stale proc handler decides by the state of ITS proc whether the signal gets through
                 key = leak_key if stuck else h_key
+            elif what == "std-closed" and n_thr >= 1:
+                key = K_HANG
+            elif what == "tty-owner":
+                # end() is `_end(); _return_terminal()` without try/finally: the terminal comes back only if _end() returns, or in the
+                # finally of the CalledProcessError it raises itself; any OTHER exception out of _end() skips it
+                end_raised_other = (obs["has_pipeline"] and not obs["start_failed"] and obs["raised"] is not None
+                                    and obs["raised"][0] not in ("CalledProcessError", "XonshCalledProcessError"))
+                key = K_ABORT if end_raised_other else None
+            elif what == "tty-attrs":
+                last = case["stages"][-1]
+                popen_thread_last = last["kind"] == "ext" and case["capture"] in ("stdout", "object") and m["why"] == "ok" and not m["start_failed"]
+                only_vsusp = observed.get("attr_diff") == {"cc": {observed.get("VSUSP"): [repr(b"\x1a"), repr(b"\x00")]}}
+                if only_vsusp and popen_thread_last and aborts:
+                    key = K_ABORT  # PopenThread._clean_up (which also puts the suspend character back) runs in wait() only
+                elif only_vsusp and popen_thread_last and case["capture"] == "stdout" and all(s_["kind"] == "thr" for s_ in case["stages"][:-1]):
+                    key = K_VSUSP
             elif what == "held":
                 if m["why"] in ("build", "wire") and not variant[2]:
                     key = K_HELD
@@ -959,14 +1083,53 @@ def judge(ctx, stream, case, obs, variant):
 
 
 def hang_is_known(case):
-    """the intermittent wedge seen on the unchanged tree: >= 3 stages, callable aliases reading their stdin to EOF"""
+    """the intermittent wedge seen on the unchanged tree: a pipeline (>= 2 stages) with a callable alias on a thread"""
     thr = [s for s in case["stages"] if s["kind"] == "thr"]
-    return len(case["stages"]) >= 3 and len(thr) >= 2
+    return len(case["stages"]) >= 2 and len(thr) >= 1
 
 
-def run_batch(items, timeout=40):
-    common.scratch_root()
-    return common.map_in_child(run_case, items, per_item_timeout=timeout, label="c09")
+_BATCH = [0]
+
+
+def run_batch(items, timeout=28):
+    """-> results; a wedged item comes back as {"__hang__": True, "stacks": the stack dump its child left behind}"""
+    root = common.scratch_root()
+    for it in items:
+        _BATCH[0] += 1
+        it["timeout"] = timeout
+        it["hang_file"] = str(root / f"c09-hang-{_BATCH[0]}.txt")
+    res = common.map_in_child(run_case, items, per_item_timeout=timeout, label="c09")
+    out = []
+    for it, r in zip(items, res):
+        if r == common.HANG:
+            try:
+                stacks = open(it["hang_file"]).read()
+            except OSError:
+                stacks = ""
+            r = {"__hang__": True, "stacks": stacks[-6000:]}
+        try:
+            os.remove(it["hang_file"])
+        except OSError:
+            pass
+        out.append(r)
+    return out
+
+
+def is_hang(obs):
+    return isinstance(obs, dict) and obs.get("__hang__") is True
+
+
+def hang_mechanism(obs):
+    """what the stack dump of a wedged command shows: the main thread inside CommandPipeline while a callable alias's proxy
+    thread is still inside the alias (blocked on its pipe)"""
+    st = obs.get("stacks", "")
+    return {
+        "main_thread_inside_CommandPipeline": "xonsh/procs/pipelines.py" in st,
+        # the mechanism C06 pinned down: an alias stage closed the REAL sys.stderr / sys.stdout object (safe_fdclose only guards
+        # `handle is sys.stderr`, which is the dispatcher while another alias thread is inside redirect_stderr); from then on every
+        # alias thread dies in safe_flush (ValueError) before it publishes its return code and closes its pipe's write end
+        "real_std_object_closed_or_alias_thread_died_of_it": ("I/O operation on closed file" in st) or ("closed (stdin, stdout, stderr): [" in st and "True" in st.split("closed (stdin, stdout, stderr): [")[1].split("]")[0]),
+    }
 
 
 def to_item(case, reps=1):
@@ -975,7 +1138,9 @@ def to_item(case, reps=1):
         env["XONSH_CAPTURE_ALWAYS"] = True
     if case.get("strict"):
         env["XONSH_ENCODING_ERRORS"] = "strict"
-    return {"src": case["src"], "end_object": case["capture"] == "object", "env": env, "reps": reps}
+    if case.get("flags"):
+        env["XONSH_SUBPROC_RAISE_ERROR"], env["XONSH_SUBPROC_CMD_RAISE_ERROR"] = bool(case["flags"][0]), bool(case["flags"][1])
+    return {"src": case["src"], "end_object": case["capture"] == "object", "env": env, "reps": reps, "tty": bool(case.get("tty"))}
 
 
 # ======================================================================================= streams
@@ -1009,110 +1174,327 @@ def stream_shapes(ctx, n, variant, name="pipelines-x-failure-modes"):
             judge(ctx, name, c, obs, variant)
 
 
+def run_channel_case(item):
+    """a real PipeChannel under a sequence of operations from one or two threads; after every operation: which of its two
+    descriptors are still THAT pipe, how often os.close was called on each number, whether a decoy descriptor that takes the
+    freed number survives"""
+    session()
+    from xonsh.procs.pipes import PipeChannel
+
+    ops = item["ops"]
+    ch = PipeChannel.from_pipe()
+    r, w = ch.read_fd, ch.write_fd
+    links = {r: os.readlink(f"/proc/self/fd/{r}"), w: os.readlink(f"/proc/self/fd/{w}")}
+    calls = {r: 0, w: 0}
+    real_close = os.close
+    errors = []
+
+    def counting_close(fd):
+        if fd in calls and sys._getframe(1).f_globals.get("__name__") == "xonsh.procs.pipes":
+            calls[fd] += 1
+        return real_close(fd)
+
+    os.close = counting_close
+    decoys = []
+    states = []
+    try:
+        for op in ops:
+            def do(o=op):
+                try:
+                    if o == "closeR":
+                        ch.close_reader()
+                    elif o == "closeW":
+                        ch.close_writer()
+                    elif o == "close":
+                        ch.close()
+                    elif o == "openW":
+                        try:
+                            ch.open_writer("wb").close()
+                        except OSError:
+                            pass
+                    elif o == "openR":
+                        try:
+                            ch.open_reader("rb").close()
+                        except OSError:
+                            pass
+                    elif o == "del":
+                        ch.__del__()
+                except BaseException as e:  # noqa: BLE001
+                    errors.append(f"{o}: {type(e).__name__}: {e}")
+
+            if item.get("threads"):
+                ts = [threading.Thread(target=do) for _ in range(2)]
+                for t in ts:
+                    t.start()
+                for t in ts:
+                    t.join()
+            else:
+                do()
+            st = []
+            for fd in (r, w):
+                try:
+                    st.append(os.readlink(f"/proc/self/fd/{fd}") == links[fd])
+                except OSError:
+                    st.append(False)
+            states.append(st)
+            # somebody else takes the lowest free numbers: a second close of a stale number would hit these
+            d = os.open(os.devnull, os.O_RDONLY)
+            decoys.append((d, os.readlink(f"/proc/self/fd/{d}")))
+    finally:
+        os.close = real_close
+    decoys_ok = all(os.path.exists(f"/proc/self/fd/{d}") and os.readlink(f"/proc/self/fd/{d}") == l for d, l in decoys)
+    for d, _ in decoys:
+        try:
+            os.close(d)
+        except OSError:
+            pass
+    ch.close()
+    return {"states": states, "close_calls": [calls[r], calls[w]], "errors": errors, "decoys_ok": decoys_ok}
+
+
+def stream_channels(ctx, n, name="pipechannel-close-idempotence"):
+    ctx.stream_rule(
+        name,
+        "a real PipeChannel under random sequences of close_reader / close_writer / close / open_writer / open_reader / __del__, "
+        "each issued once or from two threads at the same moment, while every freed descriptor number is immediately taken by a "
+        "decoy: after every operation the set of ends that are still that pipe must equal the ledger's (c09.channel: the same "
+        "events under stepRes), os.close must have been called at most once per end in total, no exception may escape and no "
+        "decoy may have been closed; non-trivial = an end is closed more than once",
+    )
+    OPS = ["closeR", "closeW", "close", "openW", "openR", "del"]
+    items = []
+    for _ in range(n):
+        k = ctx.rng.randint(1, 8)
+        items.append({"ops": [ctx.rng.choice(OPS) for _ in range(k)], "threads": ctx.rng.random() < 0.4})
+    res = common.map_in_child(run_channel_case, items, per_item_timeout=20, label="c09-channel")
+    for it, obs in zip(items, res):
+        info = {"stream": name, "ops": it["ops"], "two_threads": it["threads"]}
+        if obs == common.HANG or (isinstance(obs, dict) and "__exc__" in obs):
+            raise common.InfraError(f"C09 channel worker failed: {str(obs)[:300]}")
+        mops = [Sym("close") if o == "del" else Sym(o) for o in it["ops"]]
+        m = ctx.driver.call("c09.channel", mops)
+        want = [[bool(a), bool(b)] for a, b in m]
+        closes = [o for o in it["ops"] if o in ("closeR", "closeW", "close", "del")]
+        ctx.case(name, repr(it), len(closes) >= 2 or it["threads"], {"ops": it["ops"], "two_threads": it["threads"]})
+        if obs["states"] != want:
+            ctx.disagree(name, info, obs["states"], want)
+            ctx.spec_failure(info, {"open_ends_after_each_op": obs["states"], "ledger": want}, "a PipeChannel end is open / closed when the ledger says otherwise", None)
+        if max(obs["close_calls"]) > 1 or obs["errors"] or not obs["decoys_ok"]:
+            ctx.spec_failure(info, {"os_close_calls_per_end": obs["close_calls"], "escaped": obs["errors"], "decoys_survived": obs["decoys_ok"]},
+                             "closing a PipeChannel is not idempotent (a descriptor number closed twice / an exception / somebody else's descriptor closed)", None)
+
+
+def stream_tty(ctx, n, variant, name="interactive-on-a-pty"):
+    ctx.stream_rule(
+        name,
+        "the same generator, but the forked worker first makes a fresh pty its controlling terminal (session leader, fds 0-2 on the "
+        "slave, foreground process group) and sets $XONSH_INTERACTIVE: pipelines get their own process group and the terminal "
+        "(give_terminal_to / _return_terminal / termios save-restore run for real); in addition to everything above, after the command "
+        "os.tcgetpgrp(tty) must be the shell's process group again and termios.tcgetattr must be unchanged - on every exit path: "
+        "success, non-zero exit raised by @error_raise / $XONSH_SUBPROC_CMD_RAISE_ERROR / $XONSH_SUBPROC_RAISE_ERROR or ignored, "
+        "command not found at each position, alias raising, early exit, bad redirects",
+    )
+    CH = 60
+    for base in range(0, n, CH):
+        if ctx.enough_failures():
+            break
+        cases = []
+        for _ in range(base, min(n, base + CH)):
+            c = gen_case(ctx.rng, mode=ctx.rng.choice(["success", "nonzero", "nonzero", "nonzero", "not-found", "not-found", "alias-raises", "early-exit", "unopenable", "conflict", "undecodable"]), allow_bg=False)
+            c["tty"] = True
+            c["capture_always"] = False
+            # nothing may wait for input from the terminal
+            if not any(r.get("tgt") == "inp" for r in c["stages"][0]["redirs"]):
+                c["stages"][0]["beh"]["read"] = "none"
+            # raise sites: make the failing command (or the last one) carry a decorator more often than the general stream does
+            if c["mode"] == "nonzero" and ctx.rng.random() < 0.6:
+                for s_ in c["stages"]:
+                    if s_["beh"]["rc"]:
+                        s_["dec"] = ctx.rng.choice(["@error_raise", "@error_raise", "@error_ignore"])
+            c["src"] = render(c)
+            cases.append(c)
+        results = run_batch([to_item(c) for c in cases])
+        for c, obs in zip(cases, results):
+            ctx.case(name, c["src"], c["mode"] != "success", {"source": c["src"], "mode": c["mode"]})
+            ctx.count(f"tty-mode/{c['mode']}")
+            ctx.count(f"tty-capture/{c['capture']}")
+            judge(ctx, name, c, obs, variant)
+
+
+DIRECTED = [
+    # (what it is about, stages as (kind, read, write, found), capture, background)
+    ("endless producer in front of a command that is not found", [("ext", "none", "endless", True), ("ext", "all", "none", False)], "bare", False),
+    ("alias producer in front of a command that is not found", [("thr", "none", "small", True), ("ext", "all", "none", False)], "bare", False),
+    ("three stages, the last one not found", [("ext", "none", "small", True), ("ext", "all", "small", True), ("ext", "all", "none", False)], "stdout", False),
+    ("callable alias in front of an external command", [("thr", "none", "small", True), ("ext", "all", "none", True)], "bare", False),
+    ("two callable aliases", [("thr", "none", "small", True), ("thr", "all", "small", True)], "stdout", False),
+    ("early exit behind an endless producer", [("ext", "none", "endless", True), ("ext", "line", "none", True)], "bare", False),
+    ("captured object of a failing command", [("ext", "none", "small", True)], "object", False),
+    ("background pipeline", [("ext", "none", "small", True), ("ext", "all", "none", True)], "bare", True),
+]
+
+
+def directed_case(spec):
+    what, stages, capture, bg = spec
+    st = [{"kind": k, "beh": {"read": rd, "write": wr, "rc": 0, "raises": False, "err": False}, "redirs": [], "found": found, "buildOk": True}
+          for k, rd, wr, found in stages]
+    case = {"mode": "directed: " + what, "stages": st, "capture": capture, "background": bg, "capture_always": False}
+    case["src"] = render(case)
+    return case
+
+
+def mechanism_keys(ctx, case, m, variant, aborts):
+    """which known finding explains a residue / a handler deviation THAT THE LEDGER PREDICTS (asked counterfactually)"""
+    ended = case["capture"] == "object" or not case["background"]
+    leak_key = h_key = None
+    if m["final"]:
+        if not ended:
+            leak_key = K_BG
+        elif m["start_failed"] and m["started"] >= 1 and not variant[0]:
+            if not model(ctx, case, (True, variant[1], variant[2]), aborts=aborts)["final"]:
+                leak_key = K_LATE
+        elif aborts and all(x[1] == "child" and x[0] == m["started"] - 1 for x in m["final"]):
+            leak_key = K_ABORT
+    if m["handlers"] != ["orig"] * 4:
+        hi = m["handlers"][0]
+        last_started = m["started"] - 1
+        if not ended:
+            h_key = K_BG
+        elif isinstance(hi, list) and hi[1] == last_started and aborts and not m["start_failed"] and not variant[1]:
+            h_key = K_ABORT
+        elif isinstance(hi, list) and case["stages"][hi[1]]["kind"] == "thr" and (hi[1] < last_started or m["start_failed"]) and not variant[1]:
+            h_key = K_SIGINT
+    return leak_key, h_key
+
+
 def stream_repetition(ctx, n, reps, variant, name="repetition"):
     ctx.stream_rule(
         name,
-        f"a sample of the generated commands (every failure mode) is repeated {reps} times in one session; descriptors, children, "
-        "threads, the depth of the SIGINT handler chain, subprocess._active and the job table are sampled after the 1st, the 2nd and "
-        "the last repetition (exception released, gc run): any growth between the 2nd and the last sample is a violation; the "
-        "ledger's `repeat` gives the predicted growth; a self-sent SIGINT must still raise KeyboardInterrupt afterwards",
+        f"generated commands (one per failure mode) and directed ones (a still-writing producer / an alias in front of a command "
+        f"that cannot start; aliases in front of other stages; early exit; `!()`; a background pipeline) are repeated {reps} times in one "
+        "session; descriptors, children, threads, the depth of the chain of proc objects behind SIGINT, subprocess._active and the "
+        "job table are sampled after the 1st, 2nd and last repetition (exception released, gc run): ANY growth between the 2nd and "
+        "the last sample is a violation; it counts as a known finding only if the ledger's `repeat` predicts growth of that kind by a "
+        "known mechanism; a self-sent SIGINT must still raise KeyboardInterrupt afterwards",
     )
-    cases = []
+    cases = [directed_case(d) for d in DIRECTED]
     for k in range(n):
-        c = gen_case(ctx.rng, mode=MODES[k % len(MODES)], allow_bg=False)
-        # keep repeated commands cheap
-        for s in c["stages"]:
-            if s["beh"]["write"] == "endless" and all(x["found"] for x in c["stages"]):
-                pass
-        cases.append(c)
-    results = run_batch([to_item(c, reps) for c in cases], timeout=40 + reps)
+        cases.append(gen_case(ctx.rng, mode=MODES[k % len(MODES)], allow_bg=False))
+    results = run_batch([to_item(c, reps) for c in cases], timeout=60 + reps)
     for c, obs in zip(cases, results):
         ctx.case(name, c["src"] + repr(c.get("capture_always")), True, {"source": c["src"], "mode": c["mode"], "reps": reps})
         info = {"stream": name, "source": c["src"], "mode": c["mode"], "reps": reps, "case": c}
-        if obs == common.HANG:
-            ctx.spec_failure(info, {"hang": True}, "repeating the command wedged the session", K_HANG if hang_is_known(c) else None)
+        if is_hang(obs):
+            mech = hang_mechanism(obs)
+            ctx.count("hang")
+            ctx.extra.setdefault("hangs", []).append({"source": c["src"], "reps": reps, "mechanism": mech, "dump_tail": obs.get("stacks", "")[-1800:]})
+            ctx.spec_failure(info, {"hang": True, "mechanism": mech, "stacks": obs.get("stacks", "")[-3000:]}, "repeating the command wedged the session",
+                             K_HANG if hang_is_known(c) and all(mech.values()) else None)
             continue
         if isinstance(obs, dict) and "__exc__" in obs:
             raise common.InfraError(f"C09 worker failed on {c['src']!r}: {obs['__exc__']}")
-        m1 = model(ctx, c, variant)
-        grow_m = ctx.driver.call("c09.repeat", [bool(variant[0]), bool(variant[1])], reps, model_cmd(c))
+        aborts = bool(obs.get("end_aborted"))
+        m1 = model(ctx, c, variant, aborts=aborts)
+        leak_n, saved_n, cur_same = ctx.driver.call("c09.repeat", vflags(variant), reps, model_cmd(c, aborts))
+        leak_key, h_key = mechanism_keys(ctx, c, m1, variant, aborts)
         second, last = obs["reps"][1], obs["reps"][-1]
         growth = {k: last[k] - second[k] for k in ("nfds", "nchildren", "nthreads", "chain", "active", "jobs")}
         ctx.count("repetitions", reps)
-        bad = {k: v for k, v in growth.items() if v > 0}
-        # what the ledger says: per-repetition leak of descriptors / children, and saved handlers that pile up
-        per_rep_fd = len([x for x in m1["final"] if x[1] in ("file", "pipeR", "pipeW", "capR", "capW")])
-        per_rep_child = len([x for x in m1["final"] if x[1] == "child"])
-        pred_chain = grow_m[1][4]
-        if (growth["chain"] > 0) != (pred_chain > reps - 1 and pred_chain >= reps) and False:
-            pass
-        if bad:
+        # what the ledger says piles up: descriptors, children / threads never waited for, remembered handlers
+        pred = {
+            "nfds": len([x for x in m1["final"] if x[1] in ("file", "pipeR", "pipeW", "capR", "capW")]) > 0,
+            "nchildren": any(x[1] == "child" for x in m1["final"]),
+            "nthreads": any(x[1] == "thread" for x in m1["final"]),
+            "chain": saved_n >= reps,
+            "active": any(x[1] == "child" for x in m1["final"]),
+            "jobs": not (c["capture"] == "object" or not c["background"]),
+        }
+        for k, v in growth.items():
+            if v <= 0:
+                continue
             key = None
-            late = m1["start_failed"] and m1["started"] >= 1 and not variant[0]
-            if set(bad) <= {"chain"} and pred_chain >= reps and not variant[1]:
-                key = K_SIGINT
-            elif late and set(bad) <= {"nfds", "nchildren", "active", "chain"} and (per_rep_fd or per_rep_child):
-                key = K_LATE
-            ctx.count(f"growth/{key or 'NEW'}")
-            ctx.spec_failure(info, {"growth_between_rep_2_and_last": growth, "ledger_per_repetition": {"descriptors": per_rep_fd, "children": per_rep_child, "saved_handlers_after_all": pred_chain}},
-                             "resources grow with the number of repetitions", key)
+            if pred[k]:
+                key = h_key if k == "chain" else leak_key
+            ctx.count(f"growth/{k}/{key or 'NEW'}")
+            ctx.spec_failure(info | {"what": "growth of " + k}, {"growth_between_repetition_2_and_last": growth, "ledger_predicts_growth_of": [p for p, b in pred.items() if b],
+                                    "ledger_totals_after_all": {"open": leak_n, "remembered_handlers": saved_n, "signal_table_as_before": bool(cur_same)}},
+                             f"{k} grows with the number of repetitions", key)
         if obs["sigint"] != "KeyboardInterrupt":
-            key = K_SIGINT if (pred_chain >= reps and not variant[1]) else None
-            ctx.spec_failure(info, {"sigint": obs["sigint"], "handler_chain_depth": last["chain"]}, "after the repetitions a SIGINT does not raise KeyboardInterrupt", key)
+            stuck = last["nthreads"] > 0 and any(x[1] == "thread" for x in m1["final"])
+            key = (leak_key if stuck else h_key) if (saved_n >= reps or stuck) else None
+            ctx.count(f"sigint-after-repetitions/{obs['sigint']}/{key or 'NEW'}")
+            ctx.spec_failure(info | {"what": "sigint"}, {"sigint": obs["sigint"], "handler_chain_depth": last["chain"]},
+                             "after the repetitions a SIGINT does not raise KeyboardInterrupt", key)
 
 
 # ======================================================================================= known findings
 def replay_known(ctx):
-    """-> the variant (teardown, lifo) that matches the implementation"""
-    teardown = lifo = True
+    """replays the witnesses of the known findings; -> the variant (teardown, lifo, closeOwn) that matches the implementation"""
+    flags = {K_LATE: True, K_SIGINT: True, K_HELD: True}
     for f in ctx.known:
         w = f["witness"]
-        if f["key"] == K_HANG:
+        if w.get("intermittent"):
             continue
         case = w["case"]
         case["src"] = render(case)
         obs = run_batch([to_item(case, w.get("reps", 1))])[0]
-        if obs == common.HANG or (isinstance(obs, dict) and "__exc__" in obs):
-            raise common.InfraError(f"C09 known-finding witness did not run: {obs}")
+        if is_hang(obs) or (isinstance(obs, dict) and "__exc__" in obs):
+            raise common.InfraError(f"C09 known-finding witness did not run: {str(obs)[:500]}")
         r0 = obs["reps"][0]
         d = r0["delta"]
         if f["key"] == K_LATE:
             fails = bool(d.get("fds_added")) or bool(d.get("children"))
-            teardown = teardown and not fails
         elif f["key"] == K_SIGINT:
-            fails = "handlers" in d or obs["reps"][-1]["chain"] > 0
-            lifo = lifo and not fails
+            fails = "handlers" in d and obs["reps"][-1]["chain"] >= w.get("reps", 1)
         elif f["key"] == K_BG:
             fails = bool(d.get("fds_added"))
         elif f["key"] == K_HELD:
             fails = any(obs["held"]) and not any(r0["final"])
+        elif f["key"] == K_ABORT:
+            fails = bool(obs.get("end_aborted")) and "handlers" in d
+        elif f["key"] == K_WAIT:
+            fails = bool(r0.get("wait_timeouts")) and bool(d.get("children"))
+        elif f["key"] == K_VSUSP:
+            fails = bool(((obs.get("tty") or {}).get("0") or {}).get("attr_diff"))
         else:
             fails = bool(d)
-        ctx.replayed(f["key"], fails, {"delta": d, "held": obs["held"], "sigint": obs["sigint"]})
+        if f["key"] in flags and f.get("status") == "open":
+            flags[f["key"]] = not fails
+        ctx.replayed(f["key"], fails, {"delta": d, "held": obs["held"], "sigint": obs["sigint"], "wait_timeouts": r0.get("wait_timeouts")})
         if fails and f.get("status") == "open":
             ctx.spec_failure({"stream": "known-witness", "source": case["src"]}, {"delta": d, "held": obs["held"]}, f["what"], f["key"])
-    return (teardown, lifo)
+    known_open = {f["key"] for f in ctx.known if f.get("status") == "open"}
+    # a finding that is not listed as open is taken as repaired
+    return (flags[K_LATE] or K_LATE not in known_open, flags[K_SIGINT] or K_SIGINT not in known_open, flags[K_HELD] or K_HELD not in known_open)
 
 
 def run(ctx):
     ctx.assumptions += [
         "commands are `sh -c` children / callable aliases whose behaviour (how much they read, how much they write, exit code, raising) is generated; every started child exits once its input ends or its output is closed",
-        "$THREAD_SUBPROCS is True, $XONSH_STORE_STDIN False, $XONSH_INTERACTIVE False (the interactive stream sets it True on a pty)",
+        "$THREAD_SUBPROCS is True, $XONSH_STORE_STDIN False, $XONSH_INTERACTIVE False (the interactive stream sets it True on a pty of its own, with the SIGTTOU / SIGTTIN no-op handlers xonsh.main installs)",
         "the observation point is the moment the command has returned to the caller: exception object released, gc.collect() run; `!()` objects are ended by the harness (their value is demanded)",
     ]
     ctx.explanation = (
-        "Model lean/XonshVerif/Model/FdLedger.lean, theorems Props/C09.lean; tie = generated pipelines x failure modes through the "
-        "real Execer in a forked worker, the session's state sampled before / after and compared with the ledger's prediction."
+        "Model lean/XonshVerif/Model/FdLedger.lean, lemmas Lemmas/FdLedger.lean, theorems Props/C09.lean; tie = generated pipelines x "
+        "failure modes through the real Execer in a forked worker (one child per case), the session's state sampled before / after and "
+        "compared with the ledger's prediction; the model variant (which repairs the code carries) is chosen by replaying the known "
+        "findings' witnesses, so a correct repair switches a finding off instead of raising an alarm. A property failure counts as a "
+        "known finding only if the faithful ledger predicts exactly what was observed and the mechanism that produces it in the ledger "
+        "is that finding's."
     )
+    ctx.trusted_base += ["the correspondence harness xv/props/c09.py (forked workers, /proc sampling, recording wrappers around os.pipe / os.openpty / os.close / open / Popen.wait)"]
     variant = replay_known(ctx)
-    ctx.extra["model_variant"] = {"teardown": variant[0], "lifo": variant[1]}
-    stream_shapes(ctx, ctx.n(420, 6000), variant)
-    stream_repetition(ctx, ctx.n(11, 44), ctx.n(40, 300), variant)
+    ctx.extra["model_variant"] = {"teardown": variant[0], "lifo": variant[1], "closeOwn": variant[2]}
+    stream_shapes(ctx, ctx.n(360, 4200), variant)
+    stream_tty(ctx, ctx.n(100, 1100), variant)
+    stream_repetition(ctx, ctx.n(11, 33), ctx.n(40, 200), variant)
+    stream_channels(ctx, ctx.n(150, 3000))
 
 
 def search(ctx, reason):
     ctx.extra["search_reason"] = reason
-    variant = (ctx.extra.get("model_variant", {}).get("teardown", False), ctx.extra.get("model_variant", {}).get("lifo", False))
+    mv = ctx.extra.get("model_variant", {})
+    variant = (mv.get("teardown", False), mv.get("lifo", False), mv.get("closeOwn", False))
     stream_shapes(ctx, ctx.n(1200, 6000), variant, name="search:pipelines-x-failure-modes")
 
 
@@ -1126,8 +1508,8 @@ def replay(ctx, path):
     case["src"] = render(case)
     obs = run_batch([to_item(case, c.get("reps", 1))])[0]
     print("source:", case["src"])
-    if obs == common.HANG:
-        print(f"the command did not return\nVIOLATION property={ID} replay={path}")
+    if is_hang(obs):
+        print(f"the command did not return\n{obs.get('stacks', '')[-2000:]}\nVIOLATION property={ID} replay={path}")
         return common.EXIT_VIOLATION
     if isinstance(obs, dict) and "__exc__" in obs:
         print("worker error:", obs["__exc__"])
